@@ -18,10 +18,11 @@ LcsRow(a, b, i, prev, acc, fold) ==
          LcsRow(a, b, i, prev,
                 Append(acc, Max2(Max2(prev[j + 1], acc[j]),
                                  prev[j] + (IF Key(a[i], fold) = Key(b[j], fold) THEN 1 ELSE 0))), fold)
-RECURSIVE LcsRows(_, _, _, _, _)
-LcsRows(a, b, i, prev, fold) ==
-    IF i > Len(a) THEN prev ELSE LcsRows(a, b, i + 1, LcsRow(a, b, i, prev, <<0>>, fold), fold)
-LcsLen(a, b, fold) == LcsRows(a, b, 1, [j \in 1..(Len(b) + 1) |-> 0], fold)[Len(b) + 1]
+\* the rows are folded over a with FoldLeft (evaluated iteratively by TLC: a text of tens of thousands of words does not
+\* nest the evaluation that deep); acc = <<row, i>>
+LcsRows(a, b, fold) ==
+    FoldLeft(LAMBDA acc, w : <<LcsRow(a, b, acc[2], acc[1], <<0>>, fold), acc[2] + 1>>, <<[j \in 1..(Len(b) + 1) |-> 0], 1>>, a)[1]
+LcsLen(a, b, fold) == LcsRows(a, b, fold)[Len(b) + 1]
 
 \* m = sequence of <<ai, bi>> (0-based word indices)
 ValidMatching(m, a, b, fold) ==
